@@ -249,6 +249,35 @@ theorem replay_fold {v v' : String → Option M} {es : List (CEvent M)} (h : Rep
   | nil v => rfl
   | cons he _ ih => simp only [List.foldl_cons, applyEv_of_isEdit he, ih]
 
+theorem replay_mem {v v' : String → Option M} {es : List (CEvent M)} (h : Replay v es v') :
+    ∀ e ∈ es, ∃ a b, IsEdit a b e := by
+  induction h with
+  | nil v => intro e he; simp at he
+  | cons hed _ ih =>
+    intro e he
+    simp only [List.mem_cons] at he
+    rcases he with he | he
+    · subst he; exact ⟨_, _, hed⟩
+    · exact ih e he
+
+/-- an edit without a new value is a REMOVE -/
+theorem isEdit_new_none {a b : String → Option M} {e : CEvent M} (h : IsEdit a b e) (hn : e.new = none) :
+    e.kind = .remove := by
+  have hb : b e.id = none := by rw [← h.new_eq]; exact hn
+  rw [h.kind_eq, hb]
+  rcases h.changed with hc | hc
+  · cases ha : a e.id with
+    | none => simp [ha] at hc
+    | some x => rfl
+  · simp [hb] at hc
+
+/-- an edit that is a REMOVE has no new value -/
+theorem isEdit_remove {a b : String → Option M} {e : CEvent M} (h : IsEdit a b e) (hk : e.kind = .remove) :
+    e.new = none := by
+  rw [h.kind_eq] at hk
+  rw [h.new_eq]
+  cases ha : a e.id <;> cases hb : b e.id <;> simp [ha, hb, kindOf] at hk ⊢
+
 /-! ## seed -/
 
 theorem seedEvents_length (ops : MsgOps M K) (mask : Option K) (l : List (String × Item M)) :
